@@ -261,4 +261,38 @@ theorem perm_filterMap_set {α β : Type} (f : α → Option β) (l : List α) (
   rw [← List.append_assoc, ← List.append_assoc]
   exact List.Perm.append_right _ List.perm_append_comm
 
+/-- the same as an equation between element counts (convenient for `omega`) -/
+theorem count_filterMap_set {α β : Type} [BEq β] (f : α → Option β) (l : List α) (i : Nat) (a b : α)
+    (h : l[i]? = some a) (x : β) :
+    (f a).toList.count x + ((l.set i b).filterMap f).count x
+      = (f b).toList.count x + (l.filterMap f).count x := by
+  have := (perm_filterMap_set f l i a b h).count_eq x
+  simpa [List.count_append] using this
+
+theorem countP_lt_length_of {α : Type} (p : α → Bool) (l : List α) (i : Nat) (a : α)
+    (h : l[i]? = some a) (hp : p a = false) : l.countP p < l.length := by
+  induction l generalizing i with
+  | nil => simp at h
+  | cons x xs ih =>
+    cases i with
+    | zero =>
+      simp at h; subst h
+      have := List.countP_le_length (p := p) (l := xs)
+      simp only [List.countP_cons, hp, List.length_cons]
+      simp; omega
+    | succ n =>
+      simp at h
+      have := ih n h
+      simp only [List.countP_cons, List.length_cons]
+      split <;> omega
+
+theorem countP_pos_of {α : Type} (p : α → Bool) (l : List α) (i : Nat) (a : α)
+    (h : l[i]? = some a) (hp : p a = true) : 0 < l.countP p := by
+  induction l generalizing i with
+  | nil => simp at h
+  | cons x xs ih =>
+    cases i with
+    | zero => simp at h; subst h; simp [hp]
+    | succ n => simp at h; have := ih n h; simp only [List.countP_cons]; omega
+
 end Biogo.LTS
